@@ -961,7 +961,7 @@ impl DhtNetworkManager {
                 batch.len(),
                 batch
                     .iter()
-                    .map(|n| format!("{}@{}", &n.peer_id[..8.min(n.peer_id.len())], &n.address))
+                    .map(|n| format!("{}@{}", Self::short_peer_id(&n.peer_id), &n.address))
                     .collect::<Vec<_>>()
             );
 
@@ -990,7 +990,7 @@ impl DhtNetworkManager {
                 info!(
                     "[ITERATIVE LOOKUP] {}: Got result from {}: {:?}",
                     self.config.local_peer_id,
-                    &peer_id[..8.min(peer_id.len())],
+                    Self::short_peer_id(&peer_id),
                     result.as_ref().map(std::mem::discriminant)
                 );
 
@@ -1022,13 +1022,13 @@ impl DhtNetworkManager {
                         info!(
                             "[ITERATIVE LOOKUP] {}: Peer {} returned {} closer nodes: {:?}",
                             self.config.local_peer_id,
-                            &peer_id[..8.min(peer_id.len())],
+                            Self::short_peer_id(&peer_id),
                             nodes.len(),
                             nodes
                                 .iter()
                                 .map(|n| format!(
                                     "{}@{}",
-                                    &n.peer_id[..8.min(n.peer_id.len())],
+                                    Self::short_peer_id(&n.peer_id),
                                     &n.address
                                 ))
                                 .collect::<Vec<_>>()
@@ -1045,7 +1045,7 @@ impl DhtNetworkManager {
                                 trace!(
                                     "Candidate queue at capacity ({}), preserving oldest entries and dropping {}",
                                     MAX_CANDIDATE_NODES,
-                                    &node.peer_id[..8.min(node.peer_id.len())]
+                                    Self::short_peer_id(&node.peer_id)
                                 );
                                 continue;
                             }
@@ -1408,7 +1408,7 @@ impl DhtNetworkManager {
                                     trace!(
                                         "[NETWORK] Candidate queue at capacity ({}), dropping {}",
                                         MAX_CANDIDATE_NODES,
-                                        &node.peer_id[..8.min(node.peer_id.len())]
+                                        Self::short_peer_id(&node.peer_id)
                                     );
                                     continue;
                                 }
@@ -1477,7 +1477,7 @@ impl DhtNetworkManager {
             best_nodes.len(),
             best_nodes
                 .iter()
-                .map(|n| &n.peer_id[..8.min(n.peer_id.len())])
+                .map(|n| Self::short_peer_id(&n.peer_id))
                 .collect::<Vec<_>>()
         );
 
@@ -1840,6 +1840,15 @@ impl DhtNetworkManager {
         }
 
         result
+    }
+
+    /// Abbreviate a peer ID for log output.
+    ///
+    /// Peer IDs in replies are supplied by remote peers, so they must not be sliced at a fixed
+    /// byte offset: `&id[..8]` panics when byte 8 is not a character boundary. Falls back to the
+    /// whole ID when it is shorter than 8 bytes or cannot be cut there.
+    fn short_peer_id(peer_id: &str) -> &str {
+        peer_id.get(..8).unwrap_or(peer_id)
     }
 
     /// Check whether `peer_id` refers to this node in any of the three ID formats:
